@@ -101,7 +101,7 @@ def run_gauss(case):
             sim = pq.GaussianSimulator(d=d, config=pq.Config(**cfg))
             instrs = [build_instr(s) for s in specs[:k]]
             state = sim.execute_instructions(instrs).state
-            rec = gaussian_report(state, hbar, case.get("probs", False) and d <= 2)
+            rec = gaussian_report(state, hbar, case.get("probs", False) and k == len(specs))
             rec["exc"] = None
         except Exception as e:  # noqa
             rec = {"exc": exc_name(e), "msg": str(e)[:200]}
